@@ -93,7 +93,7 @@ type c17Timer struct {
 }
 
 func runC17(c *vk.Ctx) {
-	c.R.Rule = "cases = block-time sequences (regular, jittered, multi-epoch gaps, equal times, times before the start time) over 1-6 timers with durations 1s..1 week and 1-4 scripted subscribers whose outcome at each signal (success / error / string, error or runtime panic / out-of-gas on the block's meter or on a nested tighter meter, each after 0-3 partial writes) is drawn from the seed; after every block the epoch infos, the hook call trace and each subscriber's key space are compared with the model. distinct_nontrivial counts distinct (#timers ticking in the block, initial-start?, multiset of subscriber outcomes in the block, block result) tuples."
+	c.R.Rule = "cases = block-time sequences (regular, jittered, multi-epoch gaps, equal times, times before the start time) over 1-6 timers with durations 1s..1 week and 1-4 scripted subscribers whose outcome at each signal (success / error / string, error or runtime panic / out-of-gas on the block's meter or on a nested tighter meter, each after 0-3 partial writes) is drawn from the seed; a quarter of the sequences also export the module and re-import it through InitGenesis at arbitrary (late) blocks; after every block the epoch infos, the hook call trace and each subscriber's key space are compared with the model. distinct_nontrivial counts distinct (#timers ticking in the block, initial-start?, multiset of subscriber outcomes in the block, block result) tuples."
 	nSeq := c.N(2000, 40000)
 	nBlocks := c.N(200, 400)
 	c.Cases("sequence", nSeq, func(i int, r *vk.Rng) {
@@ -205,6 +205,22 @@ func runC17(c *vk.Ctx) {
 			now = now.Add(dt)
 			height++
 			c.Eval(1)
+			if i%4 == 3 && r.Intn(25) == 0 {
+				// export / import of the module at this (possibly much later) block: the timers are deleted and
+				// re-created through InitGenesis from what ExportGenesis reported. Nothing about them may change:
+				// the grid, the counters and the recorded start heights are part of the state.
+				gs := k.ExportGenesis(ctx)
+				for _, e := range gs.Epochs {
+					k.DeleteEpochInfo(ctx, e.Identifier)
+				}
+				ictx := ctx.WithBlockTime(now).WithBlockHeight(height)
+				if rec, stack := vk.Guard(func() { k.InitGenesis(ictx, *gs) }); rec != nil {
+					c.Violate("C17.import", sig(), "InitGenesis of the exported timers panicked: %v\n%s", rec, firstLines(stack, 10))
+					return
+				}
+				c.Logf("re-imported %d timers at h=%d t=+%s", len(gs.Epochs), height, now.Sub(t0))
+				c.Count("reimports", 1)
+			}
 			bctx := ctx.WithBlockTime(now).WithBlockHeight(height).WithGasMeter(storetypes.NewGasMeter(1_000_000_000))
 			cctx, write := bctx.CacheContext()
 			trace = trace[:0]
